@@ -17,6 +17,9 @@ func c02Units(tier string) []Unit {
 		{cfgMemOnly, cfgRotateAlways, cfgUnbuffered},
 		{cfgSmall, cfgUnbuffered, cfgRotateAlways},
 		{cfgUnbuffered, cfgMemOnly, cfgSmall},
+		// two entries per memtable and a lazy flusher: Close finds frozen memtables in the queue and newer versions of
+		// the same keys in the active memtable
+		{dbCfg{Mem: 40, Imm: 2, Block: 30, L0: 2, Ratio: 2, SL: 1}, cfgSmall, cfgMemOnly},
 	}
 	// L0TargetNum / LevelRatio stay fixed for a directory
 	for i := range cfgSets {
@@ -36,6 +39,7 @@ func c02Units(tier string) []Unit {
 	if tier == "quick" {
 		plans = []plan{
 			{"d3+1reopen", single, 2, 1, []int{0}, true},
+			{"d4+1reopen/same-key", []txProg{single[0], single[3], single[1]}, 4, 1, []int{0}, false},
 			{"d2+2reopens", single, 2, 2, []int{0}, false},
 			{"dev1/d2+1reopen", []txProg{full[0], full[3], full[7]}, 2, 1, []int{0, 1}, false},
 		}
@@ -53,6 +57,12 @@ func c02Units(tier string) []Unit {
 			for clock := 0; clock < 3; clock++ {
 				pl, cfgs, clock, ci := pl, cfgs, clock, ci
 				if tier == "quick" && len(pl.budgets) > 1 && (clock == 2 || ci >= 2) {
+					continue
+				}
+				if tier == "quick" && pl.name == "d4+1reopen/same-key" && ci != 4 && ci != 2 {
+					continue
+				}
+				if tier == "quick" && pl.name != "d4+1reopen/same-key" && ci == 4 {
 					continue
 				}
 				units = append(units, Unit{Name: fmt.Sprintf("%s/cfgset%d/clock%d", pl.name, ci, clock), Weight: (pl.ntxn + pl.nreopen) * len(pl.budgets), Run: func(c *Ctx) {
@@ -250,7 +260,7 @@ func c02ManyTablesUnits(tier string) []Unit {
 				}
 				var obs seqObs
 				nv := len(c.Res.Violations)
-				ExploreSched(c, manyTablesScenario(cfg, n, at, &obs), SchedOpts{Delay: true, Budgets: []int{0}, MaxSteps: 400000,
+				ExploreSched(c, manyTablesScenario(cfg, n, at, &obs), SchedOpts{Delay: true, Budgets: []int{0}, MaxEnv: 1, EnvKinds: dbEnvKinds, MaxSteps: 400000,
 					Outcome: func() string {
 						return fmt.Sprintf("tables:%d levels:%d reopens:%d", obs.maxTables, obs.levels, obs.reopens)
 					},
